@@ -5,6 +5,7 @@ import (
 	"reflect"
 	"sort"
 	"strings"
+	"text/scanner"
 
 	"github.com/alecthomas/participle/v2"
 	"github.com/alecthomas/participle/v2/lexer"
@@ -139,11 +140,28 @@ func entryLexDefs(rc *RunCtx) *Violation {
 	if bd, ok := def.(lexer.BytesDefinition); ok {
 		results["LexBytes"] = consume(func() (lexer.Lexer, error) { return bd.LexBytes("n.txt", []byte(d)) })
 	}
+	if ld.name == "text-scanner" {
+		// the package-level conveniences of the default lexer
+		results["lexer.LexString"] = consume(func() (lexer.Lexer, error) { return lexer.LexString("n.txt", d), nil })
+		results["lexer.LexBytes"] = consume(func() (lexer.Lexer, error) { return lexer.LexBytes("n.txt", []byte(d)), nil })
+		r7 := newSimReader(rc, d, nil, readerOpts{})
+		results["lexer.Lex"] = consume(func() (lexer.Lexer, error) { return lexer.Lex("n.txt", r7), nil })
+		r7.account(rc)
+		results["lexer.LexWithScanner"] = consume(func() (lexer.Lexer, error) {
+			sc := &scanner.Scanner{}
+			sc.Init(strings.NewReader(d))
+			lx := lexer.LexWithScanner("n.txt", sc)
+			return lx, nil
+		})
+	}
 	whole := consume(func() (lexer.Lexer, error) { return def.Lex("n.txt", strings.NewReader(d)) })
-	for _, k := range []string{"Lex", "LexString", "LexBytes"} {
+	for _, k := range []string{"Lex", "LexString", "LexBytes", "lexer.LexString", "lexer.LexBytes", "lexer.Lex", "lexer.LexWithScanner"} {
 		res, ok := results[k]
 		if !ok {
 			continue
+		}
+		if k == "lexer.LexWithScanner" && whole.Err != nil {
+			continue // a user-provided scanner keeps its own error handler: only token streams are compared
 		}
 		if !sameResult(whole, res) {
 			return viol("token-streams-differ", fmt.Sprintf("%s (reader schedule %s, %d reads) = %s but Lex over the whole input = %s", k, r.shape, r.reads, clip(res.desc(), 400), clip(whole.desc(), 400)))
@@ -244,6 +262,17 @@ func entryParser(rc *RunCtx) *Violation {
 			return viol("Parse-name-of-reader", fmt.Sprintf("Parse(\"\", reader named named.src) = %s but ParseString(\"named.src\") = %s", clip(inferred.desc(), 500), clip(want.desc(), 500)))
 		}
 		rc.fault("named")
+	}
+
+	// clause 2b: an empty filename and a reader without a name
+	if simrt.Choose(4) == 1 {
+		r8 := newSimReader(rc, d, ends, readerOpts{})
+		anon := call(func() (interface{}, error) { return p.Parse("", r8) })
+		r8.account(rc)
+		want := call(func() (interface{}, error) { return p.ParseString("", d) })
+		if !sameResult(want, anon) {
+			return viol("Parse-empty-filename", fmt.Sprintf("Parse(\"\", unnamed reader) = %s but ParseString(\"\") = %s", clip(anon.desc(), 500), clip(want.desc(), 500)))
+		}
 	}
 
 	// clause 3: Parser.Lex
